@@ -147,6 +147,12 @@ PROPS.update({
 })
 
 
+# properties whose theorem also rests on the builder layer: the builder bundle is evaluated too
+_B_EDGES = dict(bundle='builder', tags=['B', 'E'], kinds=['B'], monitor=rb.mon_c11, rule='', nontrivial=lambda c: 'D' in c.obs.get('E', ''))
+PROPS['C01']['also'] = [_B_EDGES]
+PROPS['C06']['also'] = [_B_EDGES]
+
+
 class Case:
     def __init__(self, cid, meta, obs):
         self.cid = cid
@@ -252,6 +258,20 @@ def evaluate_bundle(prop, spec, bdir, meta):
     return res
 
 
+def merge_results(res, extra):
+    for k in ('evaluations', 'distinct_nontrivial', 'compared_cases', 'compared_obs'):
+        res[k] += extra[k]
+    res['mismatches'] += extra['mismatches']
+    res['monitor_failures'] += extra['monitor_failures']
+    res['mismatches_total'] = res.get('mismatches_total', 0) + extra.get('mismatches_total', 0)
+    for f, c in extra['families'].items():
+        res['families']['builder:' + f] = c
+    res['samples'] += extra['samples'][:2]
+    if extra.get('error'):
+        res['error'] = (res.get('error') or '') + ' ' + extra['error']
+    return res
+
+
 def evaluate(prop, spec, tier, seed):
     import vlib
     try:
@@ -260,6 +280,12 @@ def evaluate(prop, spec, tier, seed):
         return dict(mismatches=[], monitor_failures=[], evaluations=0, distinct_nontrivial=0, compared_cases=0,
                     compared_obs=0, samples=[], families={}, rule=spec['rule'], error=str(e))
     res = evaluate_bundle(prop, spec, bdir, meta)
+    for sub in spec.get('also', []):
+        try:
+            bdir2, meta2 = vlib.bundle(sub['bundle'], tier, seed)
+            res = merge_results(res, evaluate_bundle(prop, sub, bdir2, meta2))
+        except RuntimeError as e:
+            res['error'] = (res.get('error') or '') + ' ' + str(e)
     res['bundle_wall_s'] = meta.get('wall_s')
     res['exhaustive'] = any(f.startswith('exh') for f in res['families']) and not res.get('error')
     res['exhaustive_scope'] = spec.get('exhaustive_scope', '')
